@@ -728,6 +728,9 @@ func extraCommand(cmd string, args []string) bool {
 	case "agenttable":
 		runAgentTable(args)
 		return true
+	case "binconn":
+		runBinConn(args)
+		return true
 	case "hostilepool":
 		runHostilePool(args)
 		return true
